@@ -2345,7 +2345,12 @@ func (p *Peer) PassThroughQuery(ctx context.Context, res *Response, passthroughR
 			}
 			for j := range req.Stats {
 				val := interface2float64(row[numCol+j])
-				res.request.StatsResult.Stats[key][j].ApplyValue(val, 1)
+				count := 1
+				if req.Stats[j].statsType == Counter {
+					// a counter column holds the number of rows the backend counted
+					count = int(val)
+				}
+				res.request.StatsResult.Stats[key][j].ApplyValue(val, count)
 			}
 		}
 	}
